@@ -16,6 +16,8 @@ type Writer struct {
 	f  *os.File
 	w  *bufio.Writer
 	N  int
+	// Sync: flush after every event (worker processes: nothing is lost when the process dies)
+	Sync bool
 }
 
 func Create(path string) (*Writer, error) {
@@ -35,6 +37,9 @@ func (t *Writer) Emit(r Rec) {
 	t.w.Write(b)
 	t.w.WriteByte('\n')
 	t.N++
+	if t.Sync {
+		t.w.Flush()
+	}
 	t.mu.Unlock()
 }
 
@@ -69,4 +74,31 @@ func ReadLines(path string) ([]json.RawMessage, error) {
 		out = append(out, c)
 	}
 	return out, sc.Err()
+}
+
+// CloseNoEnd flushes without writing the end-of-input event (worker trace fragments).
+func (t *Writer) CloseNoEnd() error {
+	t.mu.Lock()
+	defer t.mu.Unlock()
+	if err := t.w.Flush(); err != nil {
+		return err
+	}
+	return t.f.Close()
+}
+
+// Flush makes everything emitted so far durable (called at scenario boundaries so that a
+// crashing worker loses nothing but the scenario that crashed).
+func (t *Writer) Flush() {
+	t.mu.Lock()
+	t.w.Flush()
+	t.mu.Unlock()
+}
+
+// Raw appends an already serialised line.
+func (t *Writer) Raw(b []byte) {
+	t.mu.Lock()
+	t.w.Write(b)
+	t.w.WriteByte('\n')
+	t.N++
+	t.mu.Unlock()
 }
